@@ -20,3 +20,10 @@ pub assume_specification [i64::wrapping_rem] (a: i64, b: i64) -> (r: i64) requir
 pub assume_specification [i32::wrapping_div] (a: i32, b: i32) -> (r: i32) requires b != 0, ensures r == (if a == i32::MIN && b == -1 { i32::MIN as int } else { tdiv(a as int, b as int) });
 pub assume_specification [u64::abs_diff] (a: u64, b: u64) -> (r: u64) ensures r == (if a >= b { (a - b) as u64 } else { (b - a) as u64 });
 pub assume_specification [u32::abs_diff] (a: u32, b: u32) -> (r: u32) ensures r == (if a >= b { (a - b) as u32 } else { (b - a) as u32 });
+pub open spec fn npot(x: u64, p: u64, k: u64) -> bool { k < 64 && p == 1u64 << k && p >= x && (k > 0 ==> (1u64 << ((k - 1) as u64)) < x) }
+pub assume_specification [u64::checked_next_power_of_two] (x: u64) -> (r: Option<u64>)
+    ensures
+        match r {
+            Some(p) => exists|k: u64| #[trigger] npot(x, p, k),
+            None => x > 0x8000_0000_0000_0000u64,
+        };
